@@ -7,6 +7,8 @@ runs of any length — the model saturates exactly as the code does), through
 `M.deweyVersion`, and more generally over arbitrary component vectors.
 -/
 import PkgsrcVerif.Lemmas.DeweyCmp
+import PkgsrcVerif.Lemmas.DeweyApi
+import PkgsrcVerif.Props.C02
 open M S L
 
 /-- the library's verdict for `A op B` (A the package's version, B the pattern's bound) -/
@@ -80,6 +82,46 @@ theorem C03_two_bounds_is_and (base : Str) (m1 m2 : Op × DV) (n : Str) :
     by_cases h : (b != base) = true
     · simp [h]
     · simp [h]
+
+/-- **Lift to the public API.**  Writing the bound as pattern text `BASE OP B` and the package as
+    `BASE-A` (BASE and B free of comparison characters, B not starting with '=', A free of '-'),
+    `Dewey::new` accepts the pattern and `Dewey::matches` returns exactly the verdict `A OP B`
+    — so every law above (trichotomy, the two negations, reflexivity, swap, transitivity) holds
+    verbatim for the answers of the public matcher. -/
+theorem C03_api (base A B : Str) (op : Op) (hb : NoOp base) (hB : NoOp B) (he : B.head? ≠ some '=')
+    (hA : '-' ∉ A) :
+    ∃ d, deweyNew (base ++ opText op ++ B) = .ok d ∧ deweyMatches d (base ++ '-' :: A) = vtest A op B := by
+  refine ⟨⟨base, [(op, deweyVersion B)]⟩, deweyNew_single base B op hb hB he, ?_⟩
+  unfold vtest
+  cases hc : deweyCmp (deweyVersion A) op (deweyVersion B) with
+  | true =>
+    rw [C02_match_iff]
+    exact ⟨base, A, rfl, hA, rfl, by
+      intro m hm; simp only [List.mem_singleton] at hm; subst hm; exact hc⟩
+  | false =>
+    cases hm : deweyMatches ⟨base, [(op, deweyVersion B)]⟩ (base ++ '-' :: A) with
+    | false => rfl
+    | true =>
+      obtain ⟨pre, v', hn, hv', hpre, hall⟩ := (C02_match_iff _ _).mp hm
+      simp only at hpre
+      subst hpre
+      have hv : v' = A := by
+        have := List.append_cancel_left hn
+        injection this with _ e; exact e.symm
+      subst hv
+      have := hall (op, deweyVersion B) (by simp)
+      simp only at this
+      rw [this] at hc
+      cases hc
+
+/-- e.g. through the API: `p<=B` rejects `p-A` exactly when `p>B` accepts it -/
+theorem C03_api_le_not_gt (base A B : Str) (hb : NoOp base) (hB : NoOp B) (he : B.head? ≠ some '=')
+    (hA : '-' ∉ A) :
+    ∃ d1 d2, deweyNew (base ++ ['<', '='] ++ B) = .ok d1 ∧ deweyNew (base ++ ['>'] ++ B) = .ok d2 ∧
+      deweyMatches d1 (base ++ '-' :: A) = !deweyMatches d2 (base ++ '-' :: A) := by
+  obtain ⟨d1, h1, m1⟩ := C03_api base A B .le hb hB he hA
+  obtain ⟨d2, h2, m2⟩ := C03_api base A B .gt hb hB he hA
+  exact ⟨d1, d2, h1, h2, by rw [m1, m2, C03_le_is_not_gt]⟩
 
 /-- non-vacuity: an unequal-length triple with a negative tail, 1.0.0alpha < 1 = 1.0 -/
 example : deweyCmp ⟨[1, 0, 0, 0, 0, -3], 0⟩ .lt ⟨[1], 0⟩ = true ∧
